@@ -202,6 +202,17 @@ def check_axes(kind, views, commons, shape, call):
         n += 1
         MON.check(ob + "-block-equals-cube-of-1d-slices-missing-cells", r1, what, inp, cls)
         MON.check(ob + "-block-equals-cube-of-1d-slices-values", r2, what, inp, cls)
+        if call.agg == "count" and call.w_form == "none" and blk is not None:
+            # an oracle that does not go through the library at all (added after a seeded fill_one_cube change made the
+            # block and the cube of its slices wrong in the same way): the unweighted count of the block is the
+            # brute-force contingency table of the 1-D slices
+            tab = np.zeros(shape, dtype=np.int64)
+            for r in range(sl[0].shape[0]):
+                tab[tuple(int(v[r]) for v in sl)] += 1
+            okm = blk.miss.shape == tab.shape and bool(((tab == 0) == blk.miss).all())
+            okv = okm and bool((np.asarray(blk.vals, dtype=float)[tab > 0] == tab[tab > 0]).all())
+            MON.check(ob + "-block-equals-bruteforce-count-of-the-slices", okm and okv,
+                      lambda: "block at %r: %s ; brute-force count table %r" % (list(j), blk.show(), tab.tolist()), inp, cls)
     return n
 
 
